@@ -14,6 +14,7 @@ own bookkeeping): for every committed update of the recording stage its used dt 
 copy of the values it returned, and the values handed to the first update.
 """
 import numpy as np
+from .common import aeq  # noqa: E402
 
 from .common import Violation, max_err
 
@@ -145,14 +146,14 @@ def check_frames(h, frames, k, solve_time, stopped_at=None, source="captured"):
             if name in exp and exp[name] is not None:
                 a = np.asarray(arr)
                 b = np.asarray(exp[name])
-                if a.shape != b.shape or not np.array_equal(a, b):
+                if a.shape != b.shape or not aeq(a, b):
                     bad.append(name)
         if bad:
             # which update count does it actually hold?
             holds = None
             for s2 in range(0, len(done) + 1):
                 e2 = state_after(h, s2)
-                if e2 is not None and all(np.array_equal(np.asarray(fr["data"][n]), np.asarray(e2[n])) for n in bad if n in e2):
+                if e2 is not None and all(aeq(np.asarray(fr["data"][n]), np.asarray(e2[n])) for n in bad if n in e2):
                     holds = s2
                     break
             V.append(
@@ -214,7 +215,7 @@ def check_frames(h, frames, k, solve_time, stopped_at=None, source="captured"):
                     arr = arr.reshape(-1, len(dt)) if arr.ndim <= 1 else arr
                     arr = arr[:, valid]
                     exp_arr = np.stack([np.asarray(w[name], dtype=float).reshape(-1) for w in want], axis=1)
-                    if arr.shape != exp_arr.shape or not np.array_equal(arr, exp_arr):
+                    if arr.shape != exp_arr.shape or not aeq(arr, exp_arr):
                         V.append(Violation("records-" + name, f"{source}: frame step {s}: {name} records differ from the per-step values (max err {max_err(arr, exp_arr):.3g})", step=s))
         prev = s
     return V, final, t_model
@@ -242,7 +243,7 @@ def check_solution(h, sol, frames, final, t_model):
         return V
     want_dt = np.array([w["dt"] for w in rows], dtype=float)
     got = np.asarray(dyn.dt, dtype=float)
-    if got.shape != want_dt.shape or not np.array_equal(got, want_dt):
+    if got.shape != want_dt.shape or not aeq(got, want_dt):
         V.append(
             Violation(
                 "dynamics-dt",
@@ -264,7 +265,7 @@ def check_solution(h, sol, frames, final, t_model):
                 arr = np.asarray(arr, dtype=float)
                 if arr.ndim == 1:
                     arr = arr.reshape(1, -1)
-                if arr.shape != exp_arr.shape or not np.array_equal(arr, exp_arr):
+                if arr.shape != exp_arr.shape or not aeq(arr, exp_arr):
                     V.append(Violation("dynamics-" + name, f"Solution.dynamics.{name} differs from the per-step values"))
     return V
 
